@@ -82,8 +82,9 @@ func verifC17Step(entriesMax int, op int) {
 			verifAssertD(closed, "overflow-closes-connection", "")
 			verifAssertD(len(f.wire) == wire0, "overflowing-write-sends-nothing", "")
 		} else if !vk.fatalInjected {
-			// a write that fits is always accepted (EAGAIN from writev hands
-			// nothing over: reported as n==0 with the error, not as a refusal)
+			// a write that fits is always accepted, whatever the socket can take
+			// right now: Write and Writev alike
+			verifAssertD(verifImplies(fits, err == nil), "fitting-write-is-accepted", "")
 			if err == nil {
 				verifAssertD(fits, "exceeding-write-is-refused", "")
 				_ = n // that an accepted call reports its whole size is C01's clause
